@@ -342,6 +342,7 @@ def build_ids_fixture(layout_seed):
     with RDBWriter(x.rdb) as w:
         w.save(x.telstate)
     x.foo = foo
+    x.layout = layout_seed
     return x
 
 
@@ -389,6 +390,7 @@ def check_ids(ctx, x, st_vals, combo=None):
                 combo['url_query'][key] = u
             if k is not None:
                 combo['keywords'][key] = k
+    combo = dict(combo, layout=x.layout)
     query, kw, how = combo['url_query'], combo['keywords'], combo['how']
     url = ('file://' if combo['form'] == 'file://' else '') + x.rdb + ('?' + urllib.parse.urlencode(query) if query else '')
     got = open_entry(how, url, dict(kw, chunk_store=None))
@@ -453,6 +455,7 @@ def check_unreadable(ctx, x, case=None):
                     url_query=rng.choice([{}, {}, {'stream_name': 'alt_l0'}]))
         if case['kind'] == 'truncated':
             case['cut'] = rng.random()
+    case = dict(case, layout=x.layout)
     kind = case['kind']
     d = os.path.dirname(x.rdb)
     p = os.path.join(d, 'unreadable_%s.rdb' % kind.replace(':', '_'))
@@ -1086,9 +1089,7 @@ def replay(ctx, doc):
         mode = case['mode']
         check_open(ctx, {k: v for k, v in case.items() if k != 'mode'}, mode)
     elif 'kind' in case or 'form' in case:
-        # the layout of the sensor 'foo' is drawn from the seed: replay with the same VERIF_SEED
-        ctx.rng.seed(ctx.seed) if hasattr(ctx.rng, 'seed') else None
-        x = build_ids_fixture(0)
+        x = build_ids_fixture(case.get('layout', 0))
         try:
             if 'kind' in case:
                 check_unreadable(ctx, x, case)
